@@ -1,4 +1,5 @@
-(* C17 — executable model (definitions only) of
+(* C17 — executable model (definitions only) of the anchored code AS FOUND (c17_binomial, c17_round, c17_trunc: kept for the
+   `_refuted` theorems and for recognising an unfixed tree) and AFTER fixes/C17-1..3.patch (`_fix` variants), of
      dune/common/float_cmp.cc   eq_t / eq ne gt lt ge le / round_t / trunc_t  (all CmpStyles, all RoundingStyles)
      dune/common/math.hh        power, factorial, binomial, sign, isNaN / isInf / isFinite / isUnordered
      dune/common/fvector.hh     MathOverloads for FieldVector (any/all loops)
@@ -88,6 +89,38 @@ Fixpoint c17_binomial_fuel (fuel : nat) (t : c17_ity) (n k : Z) : c17_ires :=
   end.
 
 Definition c17_binomial (t : c17_ity) (n k : Z) : c17_ires := c17_binomial_fuel 2 t n k.
+
+(* ---- binomial<T> after fixes/C17-1.patch:
+     if (k < 0 || k > n) return 0;
+     if (k > n-k) return binomial(n, n-k);
+     T bin = 1;
+     for (T i = 1; i <= k; ++i) { const T g = std::gcd(bin, i); bin = (bin/g) * ((n-k+i)/(i/g)); }
+     return bin;                                                        (std::gcd modelled by Z.gcd) *)
+Fixpoint c17_binomial_fix_loop (t : c17_ity) (cnt : nat) (nk i bin : Z) : c17_ires :=
+  match cnt with
+  | O => C17_Val bin
+  | S c =>
+    let g := Z.gcd bin i in
+    c17_bind (c17_idiv t bin g) (fun a =>
+    c17_bind (c17_fit t (nk + i)) (fun b =>
+    c17_bind (c17_idiv t i g) (fun d =>
+    c17_bind (c17_idiv t b d) (fun e =>
+    c17_bind (c17_fit t (a * e)) (fun bin' =>
+    c17_bind (c17_fit t (i + 1)) (fun i' =>
+    c17_binomial_fix_loop t c nk i' bin'))))))
+  end.
+
+Fixpoint c17_binomial_fix_fuel (fuel : nat) (t : c17_ity) (n k : Z) : c17_ires :=
+  match fuel with
+  | O => C17_OutOfFuel
+  | S f =>
+    if (k <? 0) || (n <? k) then C17_Val 0 else
+    c17_bind (c17_fit t (n - k)) (fun nk =>
+    if nk <? k then c17_binomial_fix_fuel f t n nk
+    else c17_binomial_fix_loop t (Z.to_nat k) nk 1 1)
+  end.
+
+Definition c17_binomial_fix (t : c17_ity) (n k : Z) : c17_ires := c17_binomial_fix_fuel 2 t n k.
 
 (* sign:  val < 0 ? -1 : 1 *)
 Definition c17_isign (v : Z) : Z := if v <? 0 then -1 else 1.
@@ -181,6 +214,54 @@ Definition c17_trunc (r : c17_rstyle) (t : c17_ity) (s : c17_cstyle) (eps val : 
   | C17_Upward => c17_trunc_up t s eps val
   | C17_TowardZero => if c17_fgt val c17_fzero then c17_trunc_down t s eps val else c17_trunc_up t s eps val
   | C17_TowardInf => if c17_fgt val c17_fzero then c17_trunc_up t s eps val else c17_trunc_down t s eps val
+  end.
+
+(* ---- round_t after fixes/C17-2.patch: when the neighbour on the other side of val is not a value of I
+        (lower == min and T(lower) > val, or lower == max and T(lower) <= val) lower is returned ---- *)
+Definition c17_round_decide (up : bool) (s : c17_cstyle) (eps val : fl) (lower upper : Z) : c17_ires :=
+  let dl := c17_fsub val (c17_of_Z lower) in
+  let du := c17_fsub (c17_of_Z upper) val in
+  if (if up then c17_lt s eps dl du else c17_le s eps dl du) then C17_Val lower else C17_Val upper.
+
+Definition c17_round_du_fix (up : bool) (t : c17_ity) (s : c17_cstyle) (eps val : fl) : c17_ires :=
+  c17_bind (c17_cast t val) (fun lower =>
+  if c17_eq s eps (c17_of_Z lower) val then C17_Val lower else
+  if c17_fgt (c17_of_Z lower) val then
+    (if lower =? c17_imin t then C17_Val lower
+     else c17_bind (c17_fit t (lower - 1)) (fun lower' => c17_round_decide up s eps val lower' lower))
+  else
+    (if lower =? c17_imax t then C17_Val lower
+     else c17_bind (c17_fit t (lower + 1)) (fun upper => c17_round_decide up s eps val lower upper))).
+
+Definition c17_round_fix (r : c17_rstyle) (t : c17_ity) (s : c17_cstyle) (eps val : fl) : c17_ires :=
+  match r with
+  | C17_Downward => c17_round_du_fix false t s eps val
+  | C17_Upward => c17_round_du_fix true t s eps val
+  | C17_TowardZero => if c17_fgt val c17_fzero then c17_round_du_fix false t s eps val else c17_round_du_fix true t s eps val
+  | C17_TowardInf => if c17_fgt val c17_fzero then c17_round_du_fix true t s eps val else c17_round_du_fix false t s eps val
+  end.
+
+(* ---- trunc_t after fixes/C17-3.patch:  I lower = I(val);  if (T(lower) == val) return lower;  ... ---- *)
+Definition c17_feqb (a b : fl) : bool := Beqb a b.          (* a == b, false if unordered *)
+
+Definition c17_trunc_down_fix (t : c17_ity) (s : c17_cstyle) (eps val : fl) : c17_ires :=
+  if negb (c17_signed t) && c17_eq s eps val c17_fzero then C17_Val 0 else
+  c17_bind (c17_cast t val) (fun lower =>
+  if c17_feqb (c17_of_Z lower) val then C17_Val lower else
+  c17_bind (if c17_fgt (c17_of_Z lower) val then c17_fit t (lower - 1) else C17_Val lower) (fun lower' =>
+  c17_bind (c17_fit t (lower' + 1)) (fun l1 =>
+  if c17_eq s eps (c17_of_Z l1) val then C17_Val l1 else C17_Val lower'))).
+
+Definition c17_trunc_up_fix (t : c17_ity) (s : c17_cstyle) (eps val : fl) : c17_ires :=
+  c17_bind (c17_trunc_down_fix t s eps val) (fun upper =>
+  if c17_ne s eps (c17_of_Z upper) val then c17_fit t (upper + 1) else C17_Val upper).
+
+Definition c17_trunc_fix (r : c17_rstyle) (t : c17_ity) (s : c17_cstyle) (eps val : fl) : c17_ires :=
+  match r with
+  | C17_Downward => c17_trunc_down_fix t s eps val
+  | C17_Upward => c17_trunc_up_fix t s eps val
+  | C17_TowardZero => if c17_fgt val c17_fzero then c17_trunc_down_fix t s eps val else c17_trunc_up_fix t s eps val
+  | C17_TowardInf => if c17_fgt val c17_fzero then c17_trunc_up_fix t s eps val else c17_trunc_down_fix t s eps val
   end.
 
 (* power<T,int> for a floating Base: repeated multiplication, reciprocal for p < 0 *)
